@@ -1,6 +1,6 @@
 (** * C16 — dependency diagnostics (cycles, scope mismatches) are exact and stable.
     Statements only. *)
-From PLS Require Import Check.C16 Proofs.Basics Proofs.Cycles Proofs.CyclesComplete Proofs.DepsSpec.
+From PLS Require Import Check.C16 Proofs.Basics Proofs.Cycles Proofs.CyclesComplete Proofs.DepsSpec Proofs.SortUnique.
 
 (** a scope-mismatch warning on fixture F about dependency D is issued only if D is the
     definition resolution selects for F's file and is narrower than F ... *)
@@ -107,6 +107,29 @@ Theorem C16_model_meets_executable_spec :
   forall dk roots s, keys_unique s -> cycles_ok dk roots s (cycles_cold dk roots s) = true.
 Proof. exact cycles_cold_meets_spec. Qed.
 Print Assumptions C16_model_meets_executable_spec.
+
+(** which cycles are reported, in which order and on which fixture, does not depend on the
+    order in which the definitions were registered: two indexes whose definition lists are
+    permutations of each other and which resolve every dependency alike produce the same
+    report list (the traversal order is the sorted order of the definitions, and sorting
+    under a total order is unique) *)
+From Coq Require Import Permutation.
+Theorem C16_reports_do_not_depend_on_registration_order :
+  forall dk roots s1 s2,
+    keys_unique s1 -> Permutation (defs s1) (defs s2) ->
+    (forall d n, dep_target dk roots s1 d n = dep_target dk roots s2 d n) ->
+    cycles_cold dk roots s1 = cycles_cold dk roots s2.
+Proof. exact cycles_registration_order_independent. Qed.
+Print Assumptions C16_reports_do_not_depend_on_registration_order.
+
+(** non-vacuity: the two registration orders of the override workspace are such a pair *)
+Example C16_order_pair :
+  Permutation (defs override_sub_first) (defs override_top_first) /\
+  defs override_sub_first <> defs override_top_first /\
+  cycles_cold [] [] override_sub_first = cycles_cold [] [] override_top_first.
+Proof.
+  split; [vm_compute; apply perm_swap|]. split; [vm_compute; discriminate|vm_compute; reflexivity].
+Qed.
 
 Check C16_cycles_sound :
   forall dk roots s, keys_unique s -> Forall (fun c => cycle_sound dk roots s c = true) (cycles_cold dk roots s).
